@@ -3,6 +3,9 @@ package checks
 import (
 	"time"
 
+	"github.com/glebziz/fs_db/verifh/conc"
+	"github.com/glebziz/fs_db/verifh/hk"
+
 	_ "github.com/glebziz/fs_db/verifh/crash"
 	"github.com/glebziz/fs_db/verifh/enum"
 )
@@ -30,8 +33,42 @@ func c04(tier string) int {
 	} else {
 		plans = append(plans, enum.Plan{Family: "sigkill", Params: "quick"})
 	}
-	return enumCheckLevel("C04", "fault_enumeration", tier, 150*time.Second, 25*time.Minute, plans,
-		"every workload of the stated depth (autocommit Set/Delete, Begin/Set/Delete/Commit/Rollback at RC and RR, GC; and the autocommit alphabet of C01 with SetReader and Create through the asynchronous pipeline; keys a,b; both background policies) runs once with every persistent mutation logged (file create, each write, remove, mkdir, KV single-key commit, KV multi-key commit); for EVERY prefix of the log, and for the torn variant of every file write, the state is materialised, a new process recovers and reads: the result must be the model after the acknowledged operations or after those plus the one in flight (whole operation), every listed key readable with one complete content; a second recovery must agree; with deep=1 the recovery itself is crashed at each of its mutation points; real-process tier (family sigkill): fixed workloads run in a child process on the real Badger engine and real files, killed by SIGKILL immediately before its n-th counted mutation for every n, recovered by the parent with the real engine",
+	rule, assumptions := c04Texts()
+	budget := hk.NewBudget(dur(tier, 180*time.Second, 25*time.Minute))
+	rp := hk.NewReporter("C04")
+	sum := enum.RunPlans(rp, plans, budget, verbose())
+	cov := sum.Coverage(rule)
+	// crash points of concurrent executions: a write against a collection pass, every schedule within the
+	// deviation bound, every prefix of every schedule's mutation log
+	pool, err := conc.NewPool(0)
+	if err != nil {
+		return 3
+	}
+	defer pool.Close()
+	b := 2
+	if tier == "thorough" {
+		b = 3
+	}
+	var items []conc.Item
+	for _, op := range []string{"S", "D", "T"} {
+		items = append(items, conc.Item{Name: "crash-conc", Params: "op=" + op, MaxBound: b, MaxExecs: 2_000_000, Label: "C04/crash-conc-" + op})
+	}
+	cs := conc.RunItems(rp, pool, items, budget, verbose())
+	cov["concurrent_schedules_crashed"] = cs.Execs
+	cov["concurrent_completed_bound"] = cs.Completed
+	cov["concurrent_complete"] = cs.AllComplete
+	if ex, ok := cov["exhaustive"].(bool); ok {
+		cov["exhaustive"] = ex && cs.AllComplete
+	}
+	ev := &hk.Evidence{PropertyID: "C04", Tier: tier, Level: "fault_enumeration", Coverage: cov, Assumptions: assumptions}
+	return finish(rp, ev, budget)
+}
+
+func c04Texts() (string, []string) {
+	return c04Rule(
+		"every workload of the stated depth (autocommit Set/Delete, Begin/Set/Delete/Commit/Rollback at RC and RR, GC; and the autocommit alphabet of C01 with SetReader and Create through the asynchronous pipeline; keys a,b; both background policies) runs once with every persistent mutation logged (file create, each write, remove, mkdir, KV single-key commit, KV multi-key commit); for EVERY prefix of the log, and for the torn variant of every file write, the state is materialised, a new process recovers and reads: the result must be the model after the acknowledged operations or after those plus the one in flight (whole operation), every listed key readable with one complete content; a second recovery must agree; with deep=1 the recovery itself is crashed at each of its mutation points; real-process tier (family sigkill): fixed workloads run in a child process on the real Badger engine and real files, killed by SIGKILL immediately before its n-th counted mutation for every n, recovered by the parent with the real engine; crash points of concurrent executions (scenario crash-conc): an overwrite / a delete / an RC transaction's commit of a key holding an acknowledged value against a concurrent collection pass — every schedule within 2 (quick) / 3 (thorough) deviations, and for each schedule every prefix of its mutation log materialised, recovered and read: the acknowledged value or the whole value in flight, and only the latter once acknowledged",
 		[]string{"process kill, not power loss: every completed file-system call and KV commit is durable, a KV transaction is atomic (Badger's own crash safety is trusted); torn file writes are modelled by a half-written chunk",
 			"in-memory Badger engine with full version history (an image takes the volume as of any past commit); bound to the real engine and real SIGKILL by the conformance tier (DESIGN.md §2.9)"})
 }
+
+func c04Rule(rule string, assumptions []string) (string, []string) { return rule, assumptions }
